@@ -5,7 +5,8 @@ import math
 RULE = ("all four rule families for every size n <= 12 (quick) / 18 (thorough); random request orders replayed in fresh interpreter processes "
         "(the memo tables are module globals); Integrate.scalar on random polynomial spline curves (Fraction and float data, default and explicit "
         "rules), Integrate.function on per-span polynomials of degree < nnodes (degree < 2n for Gauss-Legendre), Integrate.lenght of random polylines.  "
-        "Non-trivial: n >= 3 or a curve with an interior knot; distinct = distinct (family, n) / request orders / curves.")
+        "Non-trivial: n >= 3 or a curve with an interior knot; distinct = distinct (family, n) / request orders / curves."
+        " Also: request histories with weights-before-nodes and nodes-before-weights, discontinuous polylines for lenght, closed rule on float knots.")
 EXPLANATION = ("L3: the moment conditions sum_i w_i x_i^k = 1/(k+1) are evaluated exactly (Fraction rules) or to 1e-10 (float rules) on the rules the "
                "library returns, nodes increasing in [0,1], weights summing to 1; spline integrals are compared with the exact integral of the span "
                "polynomials (`rf.integral`) and with the closed form.  L2: closed/open rules and memoised request sequences vs the Lean model "
